@@ -8,13 +8,13 @@ namespace glm
 	GLM_FUNC_QUALIFIER float next_float(float x)
 	{
 #		if GLM_HAS_CXX11_STL
-		return std::nextafter(x, std::numeric_limits<float>::max());
+		return std::nextafter(x, std::numeric_limits<float>::infinity());
 #		elif((GLM_COMPILER & GLM_COMPILER_VC) || ((GLM_COMPILER & GLM_COMPILER_INTEL) && (GLM_PLATFORM & GLM_PLATFORM_WINDOWS)))
-		return detail::nextafterf(x, FLT_MAX);
+		return detail::nextafterf(x, std::numeric_limits<float>::infinity());
 #		elif(GLM_PLATFORM & GLM_PLATFORM_ANDROID)
-		return __builtin_nextafterf(x, FLT_MAX);
+		return __builtin_nextafterf(x, std::numeric_limits<float>::infinity());
 #		else
-		return nextafterf(x, FLT_MAX);
+		return nextafterf(x, std::numeric_limits<float>::infinity());
 #		endif
 	}
 
@@ -22,13 +22,13 @@ namespace glm
 	GLM_FUNC_QUALIFIER double next_float(double x)
 	{
 #		if GLM_HAS_CXX11_STL
-		return std::nextafter(x, std::numeric_limits<double>::max());
+		return std::nextafter(x, std::numeric_limits<double>::infinity());
 #		elif((GLM_COMPILER & GLM_COMPILER_VC) || ((GLM_COMPILER & GLM_COMPILER_INTEL) && (GLM_PLATFORM & GLM_PLATFORM_WINDOWS)))
-		return detail::nextafter(x, std::numeric_limits<double>::max());
+		return detail::nextafter(x, std::numeric_limits<double>::infinity());
 #		elif(GLM_PLATFORM & GLM_PLATFORM_ANDROID)
-		return __builtin_nextafter(x, DBL_MAX);
+		return __builtin_nextafter(x, std::numeric_limits<double>::infinity());
 #		else
-		return nextafter(x, DBL_MAX);
+		return nextafter(x, std::numeric_limits<double>::infinity());
 #		endif
 	}
 
@@ -47,26 +47,26 @@ namespace glm
 	GLM_FUNC_QUALIFIER float prev_float(float x)
 	{
 #		if GLM_HAS_CXX11_STL
-		return std::nextafter(x, std::numeric_limits<float>::min());
+		return std::nextafter(x, -std::numeric_limits<float>::infinity());
 #		elif((GLM_COMPILER & GLM_COMPILER_VC) || ((GLM_COMPILER & GLM_COMPILER_INTEL) && (GLM_PLATFORM & GLM_PLATFORM_WINDOWS)))
-		return detail::nextafterf(x, FLT_MIN);
+		return detail::nextafterf(x, -std::numeric_limits<float>::infinity());
 #		elif(GLM_PLATFORM & GLM_PLATFORM_ANDROID)
-		return __builtin_nextafterf(x, FLT_MIN);
+		return __builtin_nextafterf(x, -std::numeric_limits<float>::infinity());
 #		else
-		return nextafterf(x, FLT_MIN);
+		return nextafterf(x, -std::numeric_limits<float>::infinity());
 #		endif
 	}
 
 	GLM_FUNC_QUALIFIER double prev_float(double x)
 	{
 #		if GLM_HAS_CXX11_STL
-		return std::nextafter(x, std::numeric_limits<double>::min());
+		return std::nextafter(x, -std::numeric_limits<double>::infinity());
 #		elif((GLM_COMPILER & GLM_COMPILER_VC) || ((GLM_COMPILER & GLM_COMPILER_INTEL) && (GLM_PLATFORM & GLM_PLATFORM_WINDOWS)))
-		return _nextafter(x, DBL_MIN);
+		return _nextafter(x, -std::numeric_limits<double>::infinity());
 #		elif(GLM_PLATFORM & GLM_PLATFORM_ANDROID)
-		return __builtin_nextafter(x, DBL_MIN);
+		return __builtin_nextafter(x, -std::numeric_limits<double>::infinity());
 #		else
-		return nextafter(x, DBL_MIN);
+		return nextafter(x, -std::numeric_limits<double>::infinity());
 #		endif
 	}
 
@@ -87,6 +87,9 @@ namespace glm
 		detail::float_t<float> const a(x);
 		detail::float_t<float> const b(y);
 
+		// Values of different signs: +0 and -0 are the same point, the distance is the sum of the distances to zero
+		if(a.negative() != b.negative())
+			return (a.i & 0x7fffffff) + (b.i & 0x7fffffff);
 		return abs(a.i - b.i);
 	}
 
@@ -95,6 +98,9 @@ namespace glm
 		detail::float_t<double> const a(x);
 		detail::float_t<double> const b(y);
 
+		// Values of different signs: +0 and -0 are the same point, the distance is the sum of the distances to zero
+		if(a.negative() != b.negative())
+			return (a.i & static_cast<int64>(0x7fffffffffffffffll)) + (b.i & static_cast<int64>(0x7fffffffffffffffll));
 		return abs(a.i - b.i);
 	}
 
